@@ -144,6 +144,28 @@ def run_sign(case):
         raise Violation("mac", "Message.mac differs from the MAC on the wire", "mac-attr")
     if now > 0xFFFFFFFF:
         classes.append("time>2^32")
+    # 1b. a signed message that had to be truncated: the MAC covers the header as emitted (TC set)
+    if len(w) > 560 and case["error"] == 0:
+        import dns.flags
+
+        m2 = MG.build(case["msg"])
+        m2.use_tsig(key, fudge=case["fudge"], original_id=orig_id, other_data=bytes.fromhex(case["other"]))
+        old_t = dns.message.time
+        dns.message.time = _Clock(now)
+        try:
+            try:
+                w2 = m2.to_wire(want_shuffle=False, max_size=max(512, len(w) - 40), prefer_truncation=True)
+            except dns.exception.TooBig:
+                w2 = None
+        finally:
+            dns.message.time = old_t
+        if w2 is not None and w2 != w:
+            _check_mac(w2, kd, b"", "truncated")
+            try:
+                _validate(w2, key, now)
+            except dns.exception.DNSException as e:
+                raise Violation("verify", f"a signed message rendered with prefer_truncation (limit {max(512, len(w) - 40)}, {len(w2)} octets) does not validate: {type(e).__name__}", "truncated-signed")
+            classes.append("signed-truncated")
     # 2. genuine => verifies, every keyring form
     forms = {
         "key": key,
@@ -515,7 +537,7 @@ def multi_cases(draw):
 def parts(tier):
     req_alg = {"alg:%d" % i: 10 for i in range(9)}
     req = dict(req_alg)
-    req.update({"response": 200, "peer-error": 50, "window-edges": 200, "time>2^32": 30, "tsig-moved": 100})
+    req.update({"signed-truncated": 15, "response": 200, "peer-error": 50, "window-edges": 200, "time>2^32": 30, "tsig-moved": 100})
     return [
         Part("sign", run_sign, strategy=sign_cases(), n={"quick": 1200, "thorough": 60000}, require=req,
              shards={"quick": 8, "thorough": 16}),
